@@ -106,6 +106,9 @@ def gen_cases(tier):
                         if listed == "pk" and ci == 3:
                             continue
                         cases.append({"kind": "kw", "kw": kw, "form": f, "pos": p, "ctx": ci, "listed": listed, "excluded": kw in EXCL})
+                        if p >= 1 and ci in (0, 1) and f in "Ul":
+                            # the same, with a CHECK clause on the column before it (a lexer flag set by CHECK must not outlive the clause)
+                            cases.append({"kind": "kw", "kw": kw, "form": f, "pos": p, "ctx": ci, "listed": listed, "excluded": kw in EXCL, "chk": True})
     for nn in (False, True):
         cases.append({"kind": "id", "assign": {}, "nn": nn})
         for f in FORMS[1:]:
@@ -167,6 +170,8 @@ def kw_ddl(case):
     pos = case["pos"]
     cols = ["c0 int", "c1 int", "c2 int"]
     cols[pos] = "%s %s" % (name, CTX[case["ctx"]][0])
+    if case.get("chk"):
+        cols[pos - 1] = "c%d int CHECK (c%d > 0)" % (pos - 1, pos - 1)
     extra = ""
     other = "c%d" % ((pos + 1) % 3)
     if case["listed"] == "pk":
